@@ -32,6 +32,8 @@ class C05World(DstWorld):
         files = {}
         if self.c["shape"] == "existing":
             files[core.DST_FILE] = (b"\xee" * (self.c["size"] + 3)).hex()
+        elif self.c["shape"] == "dir_existing":
+            files[core.dest_path_resolved(self.c)] = (b"\xdd" * (self.c["size"] + 3)).hex()
         st.m = {"files": files, "cur": None}
 
     def update_model(self, st, ev, out):
@@ -43,7 +45,7 @@ class C05World(DstWorld):
             r = mds[0]
             if r["dname"] is not None and r["sname"] is not None:
                 dn = r["dname"]
-                resolved = os.path.join(dn, os.path.basename(r["sname"])) if self.c["shape"] == "dir" and dn == core.DST_DIR else dn
+                resolved = os.path.join(dn, os.path.basename(r["sname"])) if self.c["shape"] in ("dir", "dir_existing") and dn == core.DST_DIR else dn
                 files[resolved] = ""
                 cur = resolved
             else:
@@ -97,7 +99,7 @@ class C05World(DstWorld):
 
 def configs(tier):
     out = []
-    for mode, shape in itertools.product(("unack", "ack"), ("new", "existing", "dir")):
+    for mode, shape in itertools.product(("unack", "ack"), ("new", "existing", "dir", "dir_existing")):
         for nak in (("imm", "def") if mode == "ack" else ("imm",)):
             for disp in ((False, True) if shape == "new" else (False,)):
                 out.append(dict(mode=mode, closure=True, shape=shape, nak=nak, size=4, seg=2, disposition=disp, check_limit=2,
